@@ -1485,6 +1485,9 @@ func (o *ovsdbClient) Get(ctx context.Context, model model.Model) error {
 	primaryDB := o.primaryDB()
 	waitForCacheConsistent(ctx, primaryDB, o.logger, o.primaryDBName)
 	defer primaryDB.cacheMutex.RUnlock()
+	if primaryDB.api == nil {
+		return ErrNotConnected
+	}
 	return primaryDB.api.Get(ctx, model)
 }
 
@@ -1498,6 +1501,9 @@ func (o *ovsdbClient) List(ctx context.Context, result interface{}) error {
 	primaryDB := o.primaryDB()
 	waitForCacheConsistent(ctx, primaryDB, o.logger, o.primaryDBName)
 	defer primaryDB.cacheMutex.RUnlock()
+	if primaryDB.api == nil {
+		return ErrNotConnected
+	}
 	return primaryDB.api.List(ctx, result)
 }
 
